@@ -13,6 +13,7 @@ stream) and v.  Type ids in the model: E_j -> j, S_k -> 100 + k.
 """
 import json
 import os
+import time
 
 from vplib import coqtools, harness
 from vplib.common import log
@@ -360,13 +361,30 @@ def describe(case):
 
 
 # ---------------------------------------------------------------- build
+class Phase:
+    """wall-clock per phase, kept in the evidence file (the box is shared: builds wait on locks)"""
+
+    def __init__(self, run, name):
+        self.run, self.name = run, name
+
+    def __enter__(self):
+        self.t = time.time()
+
+    def __exit__(self, *a):
+        d = self.run.extra.setdefault("phase_s", {})
+        d[self.name] = round(d.get(self.name, 0) + time.time() - self.t, 1)
+        log("  [%s] %s: %.1fs" % (self.run.pid, self.name, time.time() - self.t))
+
+
 def build(run, audit_file, targets=("theories/Ctx/Props.vo",), allow_axioms=()):
-    coqtools.prove(run, list(targets), audit_file, allow_axioms=allow_axioms)
-    ok, lg = coqtools.make(["theories/Ctx/Run.vo"])
+    with Phase(run, "coq build + audit"):
+        coqtools.prove(run, list(targets), audit_file, allow_axioms=allow_axioms)
+        ok, lg = coqtools.make(["theories/Ctx/Run.vo"])
     if not ok:
         run.tie_broken("model build (Ctx/Run.vo)", lg[-2000:])
         return None
-    ok, bindir, lg = harness.build("vp-ctx")
+    with Phase(run, "cargo build vp-ctx (shared target dir, waits for its lock)"):
+        ok, bindir, lg = harness.build("vp-ctx")
     if not ok:
         run.tie_broken("harness build (vp-ctx)", lg[-3000:])
         return None
@@ -385,7 +403,14 @@ def run_ref(binpath, jobs):
 
 def run_model(tag, cases):
     exprs = [g_case(c) for c in cases]
-    return coqtools.coq_eval(tag, IMPORTS, exprs, shard=max(4, len(exprs) // 16 + 1), timeout=1800)
+    return coqtools.coq_eval(tag, IMPORTS, exprs, shard=max(4, len(exprs) // 6 + 1), timeout=1800)
+
+
+def digest(s):
+    h = 7
+    for ch in s.encode():
+        h = (h * 131 + ch) % 2305843009213693951
+    return h
 
 
 def correspond(run, case, ans, model_str, what):
@@ -395,19 +420,23 @@ def correspond(run, case, ans, model_str, what):
         run.tie_broken("%s: implementation run failed" % what, "%s\n%s" % (describe(case), json.dumps(ans)[:500]))
         return False, None, None
     parts = model_str.split("#")
-    m_obs = parts[0].split("|") if parts[0] else []
     sim = Sim(prog, case["cap"], block=BLOCK)
     steps = [macro_req(m) for m in case["sched"]]
+    s_obs = [sim.step(m) for m in case["sched"]]
+    i_obs = [impl_obs(prog, steps[k], ans["steps"][k]) for k in range(len(steps))]
     ok = True
-    for k, m in enumerate(case["sched"]):
-        so = sim.step(m)
-        io = impl_obs(prog, steps[k], ans["steps"][k])
-        mo = m_obs[k] if k < len(m_obs) else "<missing>"
-        if io != mo or so != mo:
-            run.tie_broken("%s: Ctx/Model.v vs context.rs at step %d (%s)" % (what, k, json.dumps(steps[k])),
-                           "%s\n implementation: %s\n model:          %s\n simulator:      %s" % (describe(case), io, mo, so))
-            ok = False
-            break
+    if str(digest("|".join(i_obs))) != parts[0] or s_obs != i_obs:
+        # ask the model for the full trace of this case only
+        try:
+            full = coqtools.coq_eval("ctxfull", IMPORTS, [g_case(case).replace("ctx_case ", "ctx_case_full ", 1)], shard=1, timeout=900)[0]
+            m_obs = full.split("#")[0].split("|")
+        except RuntimeError as ex:
+            m_obs = ["<model evaluation failed: %s>" % str(ex)[:200]]
+        k = next((k for k in range(len(steps)) if k >= len(m_obs) or i_obs[k] != m_obs[k] or s_obs[k] != m_obs[k]), len(steps) - 1)
+        run.tie_broken("%s: Ctx/Model.v vs context.rs at step %d (%s)" % (what, k, json.dumps(steps[k])),
+                       "%s\n implementation: %s\n model:          %s\n simulator:      %s" % (
+                           describe(case), i_obs[k], m_obs[k] if k < len(m_obs) else "<missing>", s_obs[k]))
+        ok = False
     ir = impl_route_str(prog, ans)
     if ir != parts[1]:
         run.tie_broken("%s: routing table (Ctx.Model.route vs ContextOrchestrator::ingress_routing)" % what,
